@@ -2,3 +2,4 @@ import CobaldVerif.Drive.All
 import CobaldVerif.Props.C06
 import CobaldVerif.Props.C07
 import CobaldVerif.Props.C08
+import CobaldVerif.Props.C17
